@@ -526,8 +526,173 @@ def search_seek(binp, root, log):
     return None, None
 
 
-def _order(function):
+# ----------------------------------------------------------------------------------------------
+# C12: --check as a process (exit status, status lines) and the mode options, against the oracles
+# ----------------------------------------------------------------------------------------------
+def _check_expect(entries, quiet):
+    """entries: [(line text, verdict)] with verdict in ok / failed / failed_err / malformed -> (stdout regex list, status)"""
+    outs, bad = [], 0
+    for name, verdict in entries:
+        if verdict == "ok":
+            if not quiet:
+                outs.append(re.escape(name) + ": OK")
+        elif verdict == "failed":
+            outs.append(re.escape(name) + ": FAILED")
+            bad += 1
+        elif verdict == "failed_err":
+            outs.append(re.escape(name) + r": FAILED \(.*\)")
+            bad += 1
+        else:
+            bad += 1
+    return outs, (1 if bad else 0)
+
+
+def check_scenarios():
+    """lists of checkfiles; each checkfile = list of (kind, file index); kinds: good / mismatch / missing / malformed"""
+    G, M, X, B = "good", "mismatch", "missing", "malformed"
+    return [
+        [[(G, 0)]], [[(M, 0)]], [[(X, 0)]], [[(B, 0)]],
+        [[(G, 0), (G, 1), (G, 2)]],
+        [[(M, 0), (G, 1), (G, 2)]], [[(G, 0), (M, 1), (G, 2)]], [[(G, 0), (G, 1), (M, 2)]],
+        [[(X, 0), (G, 1)]], [[(B, 0), (G, 1)]], [[(G, 0), (B, 1), (G, 2)]], [[(G, 0), (X, 1), (G, 2)]],
+        [[(G, 0)], [(G, 1)]], [[(M, 0)], [(G, 1)]], [[(G, 0)], [(M, 1)]], [[(X, 0)], [(G, 1)], [(G, 2)]],
+        [[(G, 0)], [(B, 1)], [(G, 2)]], [[(M, 0), (G, 1)], [(G, 2), (G, 0)]], [[(G, 0), (G, 1)], [(G, 2), (X, 0)]],
+        [[]], [[], [(G, 0)]], [[(M, 0)], []],
+    ]
+
+
+def judge_check(binp, d, scen, quiet, tag, no_mmap):
+    """build the checkfiles of one scenario, run `b3sum --check`, compare status and status lines"""
+    import b3spec
+    contents = [b"", b"file one\n", bytes(i % 253 for i in range(70000))]
+    names = ["c0.bin", "c1 with  two spaces", "c2.bin"]
+    for n, c in zip(names, contents):
+        with open(os.path.join(d, n), "wb") as f:
+            f.write(c)
+    cfs, entries = [], []
+    for k, cf in enumerate(scen):
+        lines = []
+        for kind, i in cf:
+            hx = b3spec.blake3(contents[i]).hex()
+            name = names[i]
+            if kind == "mismatch":
+                hx = hx[:-1] + ("0" if hx[-1] != "0" else "1")
+            if kind == "missing":
+                name = "absent-" + names[i]
+            if kind == "malformed":
+                lines.append(hx[:40] + "  " + name + "\n")
+                entries.append((name, "malformed"))
+                continue
+            lines.append(checkfile.format_line(name, hx, tag))
+            entries.append((name, {"good": "ok", "mismatch": "failed", "missing": "failed_err"}[kind]))
+        cfn = "check%d.txt" % k
+        with open(os.path.join(d, cfn), "w") as f:
+            f.write("".join(lines))
+        cfs.append(cfn)
+    args = ["--check"] + (["--quiet"] if quiet else []) + (["--no-mmap"] if no_mmap else []) + cfs
+    rc, out, err = _b3sum(binp, d, args)
+    if rc == -9:
+        return None
+    want_lines, want_rc = _check_expect(entries, quiet)
+    got = out.decode("utf-8", "replace").splitlines()
+    ok = (rc == want_rc) and len(got) == len(want_lines) and all(re.fullmatch(w, g) for w, g in zip(want_lines, got))
+    if ok:
+        return None
+    return {"field": "b3sum %s: exit status / status lines" % " ".join(args[:3]),
+            "observed": "rc=%d stdout=%r" % (rc, got[:8]), "expected": "rc=%d stdout~%r" % (want_rc, want_lines[:8])}
+
+
+def search_check(binp, root, log):
+    d = os.path.join(root, "checkfiles")
+    os.makedirs(d, exist_ok=True)
+    n = 0
+    for scen in check_scenarios():
+        for quiet, tag, no_mmap in ((False, False, False), (True, False, False), (False, True, True)):
+            m = judge_check(binp, d, scen, quiet, tag, no_mmap)
+            n += 1
+            if m:
+                m = judge_check(binp, d, scen, quiet, tag, no_mmap)    # confirm once more
+            if m:
+                log["check_runs"] = n
+                return {"kind": "b3sum_check", "scenario": scen, "quiet": quiet, "tag": tag, "no_mmap": no_mmap}, m
+    log["check_runs"] = n
+    return None, None
+
+
+def judge_mode(binp, d, content, mode, seek, length, flags):
+    import b3spec
+    key = bytes(range(7, 39))
+    ctx = "verif 2026-09-23 b3sum mode test"
+    with open(os.path.join(d, "m.bin"), "wb") as f:
+        f.write(content)
+    args, stdin = [], None
+    if mode == "keyed":
+        args, stdin = ["--keyed"], key
+    elif mode == "derive":
+        args = ["--derive-key", ctx]
+    args += ["--seek", str(seek), "--length", str(length)] + list(flags) + ["--", "m.bin"]
+    env = dict(os.environ)
+    env.pop(ENV_VAR, None)
+    try:
+        p = subprocess.run([binp] + args, cwd=d, env=env, input=stdin if stdin is not None else b"", stdout=subprocess.PIPE,
+                           stderr=subprocess.PIPE, timeout=120)
+    except subprocess.TimeoutExpired:
+        return None
+    want = b3spec.blake3(content, mode={"hash": "hash", "keyed": "keyed", "derive": "derive"}[mode],
+                         key=key if mode == "keyed" else None, context=ctx if mode == "derive" else None,
+                         out_len=length, seek=seek)
+    if "--raw" in flags:
+        exp = want
+    elif "--no-names" in flags:
+        exp = (want.hex() + "\n").encode()
+    elif "--tag" in flags:
+        exp = ("BLAKE3 (m.bin) = " + want.hex() + "\n").encode()
+    else:
+        exp = (want.hex() + "  m.bin\n").encode()
+    if p.returncode == 0 and p.stdout == exp:
+        return None
+    return {"field": "b3sum %s output" % " ".join(args[:-2]),
+            "observed": ("rc=%d " % p.returncode) + (p.stdout.hex() if "--raw" in flags else p.stdout.decode("utf-8", "replace"))[:300],
+            "expected": (exp.hex() if "--raw" in flags else exp.decode())[:300]}
+
+
+def mode_cases():
+    contents = (b"", b"abc", bytes(i % 251 for i in range(1025)), bytes(i % 241 for i in range(20000)),
+                bytes(i % 239 for i in range(300000)))
+    flagsets = ((), ("--no-mmap",), ("--num-threads", "1"), ("--num-threads", "3"), ("--raw",), ("--no-names",), ("--tag",),
+                ("--no-mmap", "--raw"), ("--tag", "--no-mmap", "--num-threads", "2"))
+    for ci, content in enumerate(contents):
+        for mode in ("hash", "keyed", "derive"):
+            for fi, flags in enumerate(flagsets):
+                for seek, length in ((0, 32), (0, 100), (40, 32), (1, 64), (64, 65), (1000, 131)):
+                    if (ci + fi + seek) % 3 == 0 or (seek, length) == (0, 32):
+                        yield content, mode, seek, length, flags
+
+
+def search_modes(binp, root, log):
+    d = os.path.join(root, "modefiles")
+    os.makedirs(d, exist_ok=True)
+    n = 0
+    for content, mode, seek, length, flags in mode_cases():
+        m = judge_mode(binp, d, content, mode, seek, length, flags)
+        n += 1
+        if m:
+            m = judge_mode(binp, d, content, mode, seek, length, flags)
+        if m:
+            log["mode_runs"] = n
+            return {"kind": "b3sum_mode", "content_hex": content.hex() if len(content) < 2000 else None,
+                    "content_len": len(content), "content_mod": {1025: 251, 20000: 241, 300000: 239}.get(len(content)),
+                    "mode": mode, "seek": seek, "length": length, "flags": list(flags)}, m
+    log["mode_runs"] = n
+    return None, None
+
+
+def _order(function, prop=None):
     """which half first: obligations of the printing side start with the round trips"""
+    if prop == "C12":
+        if re.search(r"write_hex_output|write_raw_output|hash_one_input|hash_path", function or ""):
+            return ("seek", "modes", "check")
+        return ("check", "modes", "seek")
     if re.search(r"write_hex_output|write_raw_output", function or ""):
         return ("seek", "roundtrips", "lines")
     if re.search(r"hash_one_input|filepath_to_string|Args::", function or ""):
@@ -551,18 +716,20 @@ def find(prop, fo, seed, deadline=None):
             return {"found": None, "log": log}
         if deadline:
             deadline += time.time() - tb      # the build does not count against the search budget
-        for half in _order(function):
+        for half in _order(function, prop):
             if deadline and time.time() > deadline - 5:
                 log["note"] = "time budget exhausted before " + half
                 break
             sc, m = (search_lines(binp, seed, log) if half == "lines" else search_seek(binp, root, log) if half == "seek"
+                     else search_check(binp, root, log) if half == "check" else search_modes(binp, root, log) if half == "modes"
                      else search_roundtrips(binp, root, log))
             if sc:
                 found = {"scenario": sc, "features": [], "family": "b3sum_checkfile/" + half, "field": m.get("field"),
                          "observed": m.get("observed"), "expected": m.get("expected"), "panic": m.get("panic"),
                          "panic_loc": None, "detail": None}
                 break
-        log["scenarios_run"] = log.get("lines_checked", 0) + 2 * log.get("paths_checked", 0)
+        log["scenarios_run"] = (log.get("lines_checked", 0) + 2 * log.get("paths_checked", 0) + log.get("check_runs", 0)
+                                + log.get("mode_runs", 0) + log.get("seek_checked", 0))
     finally:
         common.rm_rf(root)
     log["seconds"] = round(time.time() - t0, 1)
@@ -591,6 +758,24 @@ def rerun(failing_input):
                 return {"reproduced": False, "observed": "agrees with the oracle", "scenario": sc}
             return {"reproduced": True, "field": "b3sum --seek/--length output", "observed": out.hex()[:300],
                     "expected": exp.hex()[:300], "scenario": sc, "repo": common.REPO}
+        if sc["kind"] == "b3sum_check":
+            d = os.path.join(root, "checkfiles")
+            os.makedirs(d, exist_ok=True)
+            m = judge_check(binp, d, sc["scenario"], sc["quiet"], sc["tag"], sc["no_mmap"])
+            if m is None:
+                return {"reproduced": False, "observed": "agrees with the oracle", "scenario": sc}
+            return {"reproduced": True, "field": m["field"], "observed": m["observed"], "expected": m["expected"],
+                    "scenario": sc, "repo": common.REPO}
+        if sc["kind"] == "b3sum_mode":
+            d = os.path.join(root, "modefiles")
+            os.makedirs(d, exist_ok=True)
+            content = (bytes.fromhex(sc["content_hex"]) if sc.get("content_hex") is not None
+                       else bytes(i % sc["content_mod"] for i in range(sc["content_len"])))
+            m = judge_mode(binp, d, content, sc["mode"], sc["seek"], sc["length"], sc["flags"])
+            if m is None:
+                return {"reproduced": False, "observed": "agrees with the oracle", "scenario": sc}
+            return {"reproduced": True, "field": m["field"], "observed": m["observed"], "expected": m["expected"],
+                    "scenario": sc, "repo": common.REPO}
         if sc["kind"] == "b3sum_line":
             line = bytes.fromhex(sc["line_utf8_hex"]).decode("utf-8", "surrogatepass")
             a = run_driver(binp, [("L", line.encode("utf-8"))])[0]
